@@ -139,6 +139,22 @@ func VHMapConc() {
 		linEnd(o)
 		fin = append(fin, o)
 	}
+	// ... and they must survive a promotion of the dirty map (a value that lives only in the
+	// read map, or only in the dirty map, would be lost or resurrected by it)
+	visited := 0
+	m.Range(func(int, int) bool { visited++; return true })
+	present := 0
+	for i := range keys {
+		if fin[i].rok {
+			present++
+		}
+		o := &linOp{kind: mLoad, key: i}
+		linBegin(o)
+		o.r, o.rok = m.Load(keys[i])
+		linEnd(o)
+		fin = append(fin, o)
+	}
+	vAssert(visited == present, "after quiescence Range visits exactly the keys that Load finds")
 	all := append(append([]*linOp(nil), ops...), fin...)
 	lin := false
 	linPerms(all, func(order []*linOp) { lin = vOr(lin, c04spec(order, st)) })
